@@ -92,8 +92,9 @@ impl<'a> Checksum<'a> {
                 properties=['C12', 'C05', 'C06'],
                 attrs='#[verifier::loop_isolation(false)]',
                 rw=[('R3', r"HashMap::with_capacity\(value\.chars\(\)\.filter\(\|c\| \*c == ','\)\.count\(\) \+ 1\)", "x_hm_with_capacity(x_count_char(value, ',') + 1)", '*'),
-                    ('R3', r"for hash in value\.split\(','\)", "let pieces = x_split(value, ',');\n    let ghost ps = split_spec(value@, ',');\n    for hash in it: pieces", 1),
-                    ('R3', r"hash\.rsplit_once\(':'\)", "x_rsplit_once(hash, ':')", '*'),
+                    ('R3', r"for hash in value\.split\(('.')\)", r"let pieces = x_split(value, \1);\n    let ghost ps = split_spec(value@, \1);\n    for hash in it: pieces", 1),
+                    ('R3', r"hash\.rsplit_once\(('.')\)", r"x_rsplit_once(hash, \1)", '*'),
+                    ('R3', r"hash\.split_once\(('.')\)", r"x_split_once(hash, \1)", '*'),
                     ('R3', r'algorithms\.insert\(algorithm, Cow::Borrowed\(bytes\)\)', 'x_hm_insert(&mut algorithms, algorithm, Cow::Borrowed(bytes))', '*'),
                     ],
                 loops={0: '''
